@@ -23,7 +23,7 @@ HEURISTICS = ("greedy", "roundrobin", "multifit", "kk")
 ALL_PART = HEURISTICS + EXACT_ALGS + ("cbldm",)
 PACKERS = ("ff", "ffd", "bf", "bfd", "bc")
 COVERERS = ("decreasing", "twothirds", "threequarters")
-PRESENTATIONS = ("list", "array", "dict_str", "names_str", "names_int", "dict_int_disjoint", "dict_int_overlap", "dict_enum")
+PRESENTATIONS = ("list", "array", "dict_str", "names_str", "names_int", "dict_int_disjoint", "dict_int_overlap", "dict_enum", "dict_sub")
 OBJ5 = ("maxmin", "minmax", "diff", "ksmall", "klarge")
 
 
